@@ -134,7 +134,9 @@ def run(ck):
     S.run_models(nv3, nvl, cases)
     S.run_real(b, cases, 'c06m', want_native=False)
     for c in cases:
-        record(ck, c, 'gen')
+        # outside names_apart (a block-local let spelled like a top-level constant): dynamic scoping is an open finding, the
+        # case is judged like the clash stream (the model must predict the gate)
+        record(ck, c, 'gen' if c.m_apart else 'clash')
         ck.extra['modes'][c.mode] += 1
         ck.extra['apart'][str(c.m_apart)] += 1
         ck.extra['gate_outcomes']['rc=%s binary=%s' % (c.r_rc, c.r_binary)] += 1
